@@ -400,6 +400,9 @@ func Corpus(o Options) []Case {
 		form("generic embeds instantiated generic with a concrete argument", "[T any]", 1, "\tLIG[dep.T]\n\tdep.IG[[]T]\n\tPut(k string, v T)\n", []string{"DepG", "Get", "Put"}, simpleT, "")
 		form("generic three params", "[A any, B comparable, C ~int]", 3, "\tM(a A, b B, c C) map[B]A\n", []string{"M"}, [][]string{{"int", "string", "int"}, {"error", "src.LT", "src.MyInt"}}, "")
 		form("generic param shadows package", "[dep any]", 1, "\tM(a dep) dep\n", []string{"M"}, simpleT, "")
+		form("generic params whose names method parameters reuse", "[a any, T any]", 2, "\tM(a int, T string) (v int)\n\tN(x a) T\n", []string{"M", "N"}, [][]string{{"int", "string"}, {"error", "src.LT"}}, "")
+		form("generic blank param", "[_ any]", 1, "\tM(a int) int\n", []string{"M"}, simpleT, "")
+		form("generic blank params around a named one", "[_ any, T any, _ comparable]", 3, "\tM(a T) T\n", []string{"M"}, [][]string{{"int", "string", "int"}, {"error", "src.LT", "string"}}, "")
 		// named type whose underlying type is an instantiated generic interface
 		n := ident(len(cases))
 		cases = append(cases, Case{ID: "form:instantiated generic named type", Name: n, Decl: fmt.Sprintf("// form:instantiated generic named type\ntype %s LIG[dep.T]\n", n), Methods: []string{"Get"}})
